@@ -198,11 +198,11 @@ def run(rep, tier="quick", replay=None, evidence_dir=None):
     rep.floor("C07.R5", "trial encodings into a reused scratch buffer (encode_internal: bare record for a union)", len(tr), 1)
 
     # ---------------- R6 reusable write buffers are restored on every exit (imported)
-    rep.rule("C07.R6", "a writer's reusable buffer holds nothing of an earlier value when the next accepted value is encoded (C03.R1, C18.R3 instances)")
+    rep.rule("C07.R6", "an accepted value reaches the output exactly once: reusable buffers are rolled back, pending blocks are flushed on the object count and reset afterwards (C03.R1/R3/R8, C18.R3 instances)")
     import c03
     import c18
     n6 = 0
-    for mod, pid_, rules_ in ((c03, "C03", ("C03.R1",)), (c18, "C18", ("C18.R3",))):
+    for mod, pid_, rules_ in ((c03, "C03", ("C03.R1", "C03.R3", "C03.R8")), (c18, "C18", ("C18.R3",))):
         sub = common.Report(pid_, tier, 0)
         mod.run(sub, tier=tier, collect_only=True)
         for o in sub.obligations:
